@@ -137,3 +137,118 @@ class Pool:
 def arm_watchdog(seconds):
     """Dump all stacks and die if the harness itself hangs (exit status is never 0)."""
     faulthandler.dump_traceback_later(seconds, exit=True)
+
+
+# ------------------------------------------------------------------------------------------------
+# In-process execution with state restore.
+#
+# In this sandbox process creation and page faults are serialised system-wide (measured: the same
+# 18 runs take 2.2 s on 1 worker and 45 s on 16 workers, i.e. ~8 forked runs/s in total however many
+# workers are used).  So the default way to run the SUT is *inside* the pool worker, with every
+# module-level variable of every repo module restored to its import-time value before and after the
+# run -- which is exactly the state a fork of the pristine worker would have had.  Forks are still
+# used where a process boundary is the point: crash points (C11), address-space budgets (C10),
+# history-vs-fresh comparisons (C12) and other PYTHONHASHSEEDs (C13).  selftest-determinism checks
+# that in-process and forked execution give identical digests.
+
+import copy as _copy
+import types as _types
+
+_PLAIN = (int, float, str, bytes, bool, type(None))
+_snapshot = None
+
+
+class Budget(BaseException):
+    pass
+
+
+def _is_plain(v, depth=0):
+    if isinstance(v, _PLAIN):
+        return True
+    if depth > 6:
+        return False
+    if isinstance(v, (list, tuple, set, frozenset)):
+        return all(_is_plain(x, depth + 1) for x in v)
+    if isinstance(v, dict):
+        return all(_is_plain(k, depth + 1) and _is_plain(x, depth + 1) for k, x in v.items())
+    return False
+
+
+def _repo_modules():
+    repo = os.environ.get("GASOL_REPO", "/repo")
+    out = []
+    for name, m in list(sys.modules.items()):
+        f = getattr(m, "__file__", None)
+        if f and f.startswith(repo + "/"):
+            out.append(m)
+    return out
+
+
+def snapshot_repo():
+    """Record the import-time value of every module-level name of every repo module."""
+    global _snapshot
+    snap = {}
+    for m in _repo_modules():
+        shallow = dict(m.__dict__)
+        deep = {k: _copy.deepcopy(v) for k, v in shallow.items()
+                if not k.startswith("__") and not isinstance(v, _PLAIN) and _is_plain(v)}
+        snap[m] = (shallow, deep)
+    _snapshot = snap
+
+
+def restore_repo():
+    if _snapshot is None:
+        snapshot_repo()
+    for m, (shallow, deep) in _snapshot.items():
+        d = m.__dict__
+        for k in [k for k in d if k not in shallow]:
+            del d[k]
+        for k, v in shallow.items():
+            if k in deep:
+                cur = d.get(k, None)
+                # unchanged containers (the big constant tables) are left alone; anything rebound or
+                # mutated in place gets a fresh copy of the import-time value
+                if cur is not v or cur != deep[k]:
+                    fresh = _copy.deepcopy(deep[k])
+                    d[k] = fresh
+                    shallow[k] = fresh
+            elif d.get(k, None) is not v:
+                d[k] = v
+
+
+def _on_budget(signum, frame):
+    raise Budget()
+
+
+def run_inproc(fn, arg, cpu_s=60, **_ignored):
+    """Run fn(arg) in this process between two state restores.  Same return convention as
+    run_in_child.  The CPU budget is enforced with ITIMER_VIRTUAL (process CPU time, so machine load
+    cannot cause a verdict); the timer repeats, so a bare `except:` in the SUT cannot swallow it."""
+    restore_repo()
+    old = signal.signal(signal.SIGVTALRM, _on_budget)
+    signal.setitimer(signal.ITIMER_VIRTUAL, cpu_s, 0.5)
+    rl = sys.getrecursionlimit()
+    try:
+        try:
+            res = fn(arg)
+            status = "ok"
+        except Budget:
+            res, status = None, "cpu"
+        except MemoryError:
+            res, status = None, "mem"
+    finally:
+        signal.setitimer(signal.ITIMER_VIRTUAL, 0, 0)
+        signal.signal(signal.SIGVTALRM, old)
+        sys.setrecursionlimit(rl)
+        sys.stdout, sys.stderr = sys.__stdout__, sys.__stderr__
+        restore_repo()
+    return status, res
+
+
+def run_sut(fn, arg, fork=None, **kw):
+    """Default executor for SUT runs."""
+    if fork is None:
+        fork = os.environ.get("GSIM_FORK") == "1"
+    if fork:
+        return run_in_child(fn, arg, **kw)
+    return run_inproc(fn, arg, **kw)
